@@ -41,14 +41,16 @@ type propConfig struct {
 }
 
 type knownFinding struct {
-	Property   string `json:"property"`
-	Entry      string `json:"entry"`
-	Label      string `json:"label"`
-	Kind       string `json:"kind,omitempty"`
-	AssumeAway string `json:"assume_away,omitempty"` // SMT-LIB predicate over input names describing the listed failing inputs
-	What       string `json:"what"`
-	Status     string `json:"status"` // open | fixed
-	Commit     string `json:"commit,omitempty"`
+	Property string `json:"property"`
+	Entry    string `json:"entry"`
+	Label    string `json:"label"`
+	Kind     string `json:"kind,omitempty"`
+	// WhenAny describes the listed failing inputs: a disjunction of conjunctions "input in {values}".
+	// An input that does not exist on a path makes its conjunction false. Empty = every input.
+	WhenAny []map[string][]int64 `json:"when_any,omitempty"`
+	What    string               `json:"what"`
+	Status  string               `json:"status"` // open | fixed
+	Commit  string               `json:"commit,omitempty"`
 }
 
 type knownFile struct {
@@ -397,6 +399,9 @@ func cmdCheck(args []string) int {
 		eng.entry = findFunc(prog, pkgs, es.name)
 		if eng.entry == nil {
 			return fail("entry function not found: " + es.name)
+		}
+		if err := eng.resolveNoSched(); err != nil {
+			return fail(err.Error())
 		}
 		for _, k := range kf.Findings {
 			if k.Property == *prop && k.Entry == es.name && k.Status == "open" {
